@@ -94,3 +94,12 @@ CASES += [
       "        if temperature is None:\n            if self.sbi is None:\n                temperature = 0.0\n            elif self.sbi.has_temperature():\n                temperature = self.sbi.get_temperature()\n            else:\n                temperature = 0.0\n",
       "        if temperature is not None:\n            pass\n        elif self.sbi is None:\n            temperature = 0.0\n        elif self.sbi.has_temperature():\n            temperature = self.sbi.get_temperature()\n        else:\n            temperature = 0.0\n"),
 ]
+
+CASES += [
+    m("'already diagonal' short cut in front of the diagonalisation (seeded change of round 7)", "C14-L", "quantarhei/qm/hilbertspace/operators.py",
+      "        dd, SS = numpy.linalg.eigh(self._data)\n        return SS        \n",
+      "        if self.is_diagonal():\n            order = numpy.argsort(numpy.real(numpy.diag(self._data)), kind=\"stable\")\n            return numpy.eye(self.dim)[:,order]\n        dd, SS = numpy.linalg.eigh(self._data)\n        return SS        \n"),
+    t("eigenvectors returned through a second name", "quantarhei/qm/hilbertspace/operators.py",
+      "        dd, SS = numpy.linalg.eigh(self._data)\n        return SS        \n",
+      "        dd, vecs = numpy.linalg.eigh(self._data)\n        SS = vecs\n        return SS        \n"),
+]
